@@ -339,9 +339,13 @@ impl<'a> HeaderValueEncoder<'a> {
 
     fn format(mut self, words_iter: impl Iterator<Item = &'a str>) -> fmt::Result {
         for next_word in words_iter {
-            let allowed = allowed_str(next_word);
+            // a word shaped like an encoded-word would be decoded by the reader
+            let allowed = allowed_str(next_word) && !next_word.contains("=?");
+            // spaces between two encoded runs would be dropped by the reader
+            let joins_encoded_run = !self.encode_buf.is_empty()
+                && next_word.bytes().all(|b| b == b' ' || b == b'\t');
 
-            if allowed {
+            if allowed && !joins_encoded_run {
                 // This word only contains allowed characters
 
                 // the next word is allowed, but we may have accumulated some words to encode
